@@ -95,6 +95,9 @@ def normalize(cfg: Dict[str, Any]) -> Dict[str, Any]:
     c.setdefault("ack", "default")
     c.setdefault("ackable", True)
     c["ackasync"] = bool(c.pop("ack_async", c.get("ackasync", False)))
+    # the ack callable is a plain function returning a Future (an awaitable that is not a coroutine) whose work ends
+    # only when the scenario opens gate ("ack", m, 0)
+    c["ackfut"] = bool(c.pop("ack_future", c.get("ackfut", False))) and not c["ackasync"]
     c.setdefault("propagate", True)
     c["bsusp"] = bool(c.pop("backend_suspend", c.get("bsusp", False)))
     c["msgs"] = [{**MSG_DEFAULT, **m} for m in c.get("msgs", [])]
@@ -115,5 +118,5 @@ def normalize(cfg: Dict[str, Any]) -> Dict[str, Any]:
 
 def tla_view(c: Dict[str, Any]) -> Dict[str, Any]:
     """The part of a normalized cfg the TLA+ specs read."""
-    keys = ("A", "P", "N", "W", "ack", "ackable", "ackasync", "M", "msgs", "mws", "deps", "gpar", "propagate", "bsusp")
+    keys = ("A", "P", "N", "W", "ack", "ackable", "ackasync", "ackfut", "M", "msgs", "mws", "deps", "gpar", "propagate", "bsusp")
     return {k: c[k] for k in keys}
